@@ -817,7 +817,13 @@ class TermCanvas(Canvas):
             x += self.term_cursor[0]
 
         if relative_y:
-            y += self.term_cursor[1]
+            cursor_y = self.term_cursor[1]
+            y += cursor_y
+            # a relative move stops at the margin of the scrolling region that lies in its way
+            if cursor_y >= self.scrollregion_start:
+                y = max(self.scrollregion_start, y)
+            if cursor_y <= self.scrollregion_end:
+                y = min(self.scrollregion_end, y)
         elif self.modes.constrain_scrolling:
             y += self.scrollregion_start
 
